@@ -5,6 +5,7 @@ import StreamzVerif.Model.Kafka
   {"op":"produce","p":0,"k":2} | {"op":"add","m":1} | {"op":"trunc","p":0,"k":1}     -> {"ok":true}
   {"op":"poll"}            -> {"emit":[[p,lo,hi,[offsets of get_message_batch]],...]}   (partition order)
   {"op":"complete","p":0,"i":1} -> {"commit":[[p,offset]]}  ([] when the batch does not exist / is already done)
+  {"op":"fail","p":0,"i":1}     -> {"ok":true}      (the handling of that batch raised)
   {"op":"restart"}         -> {"positions":[..]}   (positions of the partitions the new process knows)
   {"op":"state"}           -> {"parts":[[low,high,committed,known,pos,nbatches],...],"latest":bool}
 -/
@@ -57,10 +58,14 @@ def dstep (d : DSt) (j : Json) : DSt × Json :=
         let before := (d.s.parts[p]?.map (·.batches)).getD []
         let commits : List Json :=
           match before[i]? with
-          | some b => if b.done then [] else [Json.arr #[toJson p, toJson ((d'.s.parts[p]?.map (·.committed)).getD NONE)]]
+          | some b => if b.done || b.failed then [] else [Json.arr #[toJson p, toJson ((d'.s.parts[p]?.map (·.committed)).getD NONE)]]
           | none => []
         (d', Json.mkObj [("commit", Json.arr commits.toArray)])
       | _, _ => (d, badOp "complete")
+    | "fail" =>
+      match getNat j "p", getNat j "i" with
+      | some p, some i => (act (.fail p i), ok)
+      | _, _ => (d, badOp "fail")
     | "restart" =>
       let d' := act .restart
       (d', Json.mkObj [("positions", toJson ((d'.s.parts.filter (·.known)).map (·.pos)))])
